@@ -20,8 +20,10 @@ package store
 
 import (
 	"context"
+	"strconv"
 
 	"github.com/cockroachdb/errors"
+	"github.com/milvus-io/milvus/pkg/util/lock"
 	"github.com/samber/lo"
 	"go.uber.org/zap"
 
@@ -94,7 +96,18 @@ func UpdateTaskState(taskInfoStore api.MetaStore[*meta.TaskInfo], taskID string,
 	return nil
 }
 
+// positionUpdateLocks serializes the read-modify-write updates of one task collection position record:
+// the channels of a collection are updated by different goroutines and the drop mark by yet another one,
+// an update computed from a stale read would undo the other channels' progress or the drop mark.
+var positionUpdateLocks = lock.NewKeyLock[string]()
+
+func positionUpdateKey(taskID string, collectionID int64) string {
+	return taskID + "/" + strconv.FormatInt(collectionID, 10)
+}
+
 func UpdateTaskCollectionPosition(taskPositionStore api.MetaStore[*meta.TaskCollectionPosition], taskID string, collectionID int64, collectionName string, pChannelName string, position, opPosition, targetPosition *meta.PositionInfo) error {
+	positionUpdateLocks.Lock(positionUpdateKey(taskID, collectionID))
+	defer positionUpdateLocks.Unlock(positionUpdateKey(taskID, collectionID))
 	ctx := context.Background()
 	positions, err := taskPositionStore.Get(ctx, &meta.TaskCollectionPosition{TaskID: taskID, CollectionID: collectionID}, nil)
 	if err != nil {
@@ -179,6 +192,8 @@ func UpdateTaskCollectionPosition(taskPositionStore api.MetaStore[*meta.TaskColl
 }
 
 func UpdateDropStateTaskCollectionPosition(taskPositionStore api.MetaStore[*meta.TaskCollectionPosition], taskID string, collectionID int64) error {
+	positionUpdateLocks.Lock(positionUpdateKey(taskID, collectionID))
+	defer positionUpdateLocks.Unlock(positionUpdateKey(taskID, collectionID))
 	ctx := context.Background()
 	positions, err := taskPositionStore.Get(ctx, &meta.TaskCollectionPosition{TaskID: taskID, CollectionID: collectionID}, nil)
 	if err != nil {
